@@ -186,8 +186,8 @@ func buildCase(rt *rapid.T, cfg gen.Cfg) (Case, bool) {
 		f := g.Fns[rapid.IntRange(0, len(g.Fns)-1).Draw(rt, "fn")]
 		st := Step{Fn: f.Name, Params: f.Params, Ret: f.Ret, Async: rapid.IntRange(0, 3).Draw(rt, "async") == 0}
 		var args []hs.Value
-		for _, p := range f.Params {
-			v := gen.DrawValue(rt, p)
+		for pi := range f.Params {
+			v := gen.DrawArg(rt, f, pi)
 			args = append(args, v)
 			st.Args = append(st.Args, hs.WV{V: hs.DeepCopy(v)})
 		}
@@ -208,8 +208,8 @@ func buildCase(rt *rapid.T, cfg gen.Cfg) (Case, bool) {
 			for k := 0; k < extra; k++ {
 				f2 := g.Fns[rapid.IntRange(0, len(g.Fns)-1).Draw(rt, "fnAfter")]
 				s2 := Step{Fn: f2.Name, Params: f2.Params, Ret: f2.Ret}
-				for _, p := range f2.Params {
-					s2.Args = append(s2.Args, hs.WV{V: gen.DrawValue(rt, p)})
+				for pi := range f2.Params {
+					s2.Args = append(s2.Args, hs.WV{V: gen.DrawArg(rt, f2, pi)})
 				}
 				c.Steps = append(c.Steps, s2)
 			}
